@@ -79,7 +79,7 @@ Qed.
 
 (* ---- the character switches of UriEscape.c and uriHexdigToInt, translated from the C source on every
    check (Generated/SwitchTables.v), against the case split of the model.  Proofs in Proofs/SwitchEscape.v. *)
-From UP Require Import Generated.SwitchTables Proofs.SwitchRefine Proofs.SwitchEscape.
+From UP Require Import Generated.SwitchTables Proofs.SwitchBase Proofs.SwitchEscape.
 
 Theorem C16_switch_classes :
   (* uriEscapeEx: the group copied unchanged is exactly the unreserved set; the switch is no finer than escape_loop *)
